@@ -26,13 +26,13 @@ const c18TO = 10 * time.Second
 
 var c18tNames = []string{"start GET", "start POST", "let the timeout pass (11s)", "finish oldest running handler", "finish 2nd running handler"}
 
-func c18SeqTimeout(t *testing.T, conc int, seq []int) (viol, desc, obs string) {
+func c18SeqTimeout(t *testing.T, conc int, timeout time.Duration, seq []int) (viol, desc, obs string) {
 	synctest.Test(t, func(t *testing.T) {
 		a := &API{
 			requestsInFlight:         prometheus.NewGauge(prometheus.GaugeOpts{Name: "x"}),
 			concurrencyLimitExceeded: prometheus.NewCounter(prometheus.CounterOpts{Name: "y"}),
 			inFlightSem:              make(chan struct{}, conc),
-			timeout:                  c18TO,
+			timeout:                  timeout,
 		}
 		var reqs []*c18Req
 		inner := http.HandlerFunc(func(w http.ResponseWriter, r *http.Request) {
@@ -116,7 +116,11 @@ func c18SeqTimeout(t *testing.T, conc int, seq []int) (viol, desc, obs string) {
 					}
 				}
 			case 2:
-				time.Sleep(c18TO + time.Second)
+				if timeout == 0 {
+					obs = "skip"
+					return
+				}
+				time.Sleep(timeout + time.Second)
 				synctest.Wait()
 				obs += "T "
 			default:
@@ -151,14 +155,16 @@ func c18SeqTimeout(t *testing.T, conc int, seq []int) (viol, desc, obs string) {
 	return viol, desc, obs
 }
 
-func TestVerifC18LimiterTimeout(t *testing.T) {
-	part := "get-limiter-with-timeout"
+func TestVerifC18Limiter(t *testing.T)        { c18Limiter(t, "get-limiter", 0) }
+func TestVerifC18LimiterTimeout(t *testing.T) { c18Limiter(t, "get-limiter-with-timeout", c18TO) }
+
+func c18Limiter(t *testing.T, part string, timeout time.Duration) {
 	R := rep.New("C18", part)
 	if rp := rep.ReplaySpec(); rp != nil {
 		if rp["part"] != part {
 			return
 		}
-		v, d, o := c18SeqTimeout(t, int(rp["conc"].(float64)), rep.Ints(rp["events"]))
+		v, d, o := c18SeqTimeout(t, int(rp["conc"].(float64)), timeout, rep.Ints(rp["events"]))
 		fmt.Printf("REPLAY violation=%q %s obs=%s\n", v, d, o)
 		R.Executions = 1
 		if v != "" {
@@ -175,7 +181,7 @@ func TestVerifC18LimiterTimeout(t *testing.T) {
 		var rec func(seq []int)
 		rec = func(seq []int) {
 			if len(seq) > 0 {
-				v, d, o := c18SeqTimeout(t, conc, seq)
+				v, d, o := c18SeqTimeout(t, conc, timeout, seq)
 				if o == "skip" {
 					return
 				}
@@ -188,7 +194,7 @@ func TestVerifC18LimiterTimeout(t *testing.T) {
 						nm = append(nm, c18tNames[e])
 					}
 					if R.NViolations < 5 {
-						R.Violate(v, fmt.Sprintf("concurrency %d, timeout %v, sequence [%s]: %s", conc, c18TO, strings.Join(nm, ", "), d), map[string]any{"part": part, "conc": conc, "events": seq})
+						R.Violate(v, fmt.Sprintf("concurrency %d, timeout %v, sequence [%s]: %s", conc, timeout, strings.Join(nm, ", "), d), map[string]any{"part": part, "conc": conc, "events": seq})
 					}
 					return
 				}
@@ -203,6 +209,6 @@ func TestVerifC18LimiterTimeout(t *testing.T) {
 		rec(nil)
 	}
 	R.Exhaustive = true
-	R.Bound = fmt.Sprintf("all sequences of <= %d events over %v, concurrency 1 and 2, web timeout %v, through the real limitHandler (virtual time)", depth, c18tNames, c18TO)
+	R.Bound = fmt.Sprintf("all sequences of <= %d events over %v, concurrency 1 and 2, web timeout %v, through the real limitHandler (virtual time; without a timeout the timeout event is not enabled)", depth, c18tNames, timeout)
 	R.Write()
 }
